@@ -132,7 +132,15 @@ fn run_chain<B: Body>(ctx: &mut Ctx, rb: RequestBuilder<B>, base: &Model, chain:
             Answer::Script(vec![Step::Data(resp)], WriteFaults::default())
         }
     });
-    let res = rb.proxy_settings(settings_of(&chain.cfg)).max_redirections(10).danger_accept_invalid_certs(true).send();
+    // prepared once; sent a second time at the end (the second send starts again at hop 0)
+    let mut prepared = match rb.proxy_settings(settings_of(&chain.cfg)).max_redirections(10).danger_accept_invalid_certs(true).try_prepare() {
+        Ok(p) => p,
+        Err(e) => {
+            ctx.violation(format!("chain-prepare-failed:{kind}"), format!("try_prepare() failed: {e:?}"));
+            return;
+        }
+    };
+    let res = prepared.send();
     let mut tunnel_requests: Vec<(usize, ServerResult)> = Vec::new();
     for (idx, h) in servers.lock().unwrap().drain(..) {
         tunnel_requests.push((idx, h.join().expect("tls server")));
@@ -251,6 +259,32 @@ fn run_chain<B: Body>(ctx: &mut Ctx, rb: RequestBuilder<B>, base: &Model, chain:
                     descr(&format!("hop {i} after only 307/308: {} body octets, first hop had {}", p.body.len(), first_body.as_ref().map(|b| b.len()).unwrap_or(0))),
                 );
             }
+        }
+    }
+    // ---- second send of the same prepared request: its first request belongs to hop 0 again ----
+    drop(res);
+    let hop0 = &chain.hops[0];
+    let tunnelled0 = matches!(proxy::decide(&chain.cfg, hop0.scheme, hop0.host), Some(Decision::Proxy(_))) && hop0.scheme == "https";
+    if !tunnelled0 {
+        let before = world.dial_count();
+        let res2 = prepared.send();
+        if world.dial_count() > before {
+            let d = world.dial(before);
+            let via_proxy0 = matches!(proxy::decide(&chain.cfg, hop0.scheme, hop0.host), Some(Decision::Proxy(_)));
+            ctx.count("resends", 1);
+            if !via_proxy0 {
+                if d.req.host != hop0.host || d.req.port != hop0.port {
+                    ctx.violation("resend-wrong-peer", descr(&format!("the second send() of the prepared request dialled {}:{} first, expected {}:{}", d.req.host, d.req.port, hop0.host, hop0.port)));
+                }
+                if let Ok(p) = crate::refmodel::request::parse_exactly_one(&d.trace().written) {
+                    let hosts = p.header_values("host");
+                    if hosts.len() != 1 || !String::from_utf8_lossy(hosts[0]).eq_ignore_ascii_case(&hop0.authority()) {
+                        ctx.violation("resend-host-field", descr(&format!("the first request of the second send() carries Host {:?}, expected {:?}", hosts.iter().map(|h| show(h)).collect::<Vec<_>>(), hop0.authority())));
+                    }
+                }
+            }
+        } else if res2.is_err() {
+            ctx.violation("resend-failed", descr(&format!("second send() failed without dialling: {:?}", res2.err())));
         }
     }
     ctx.count(&format!("kind_{kind}"), 1);
